@@ -2,7 +2,7 @@
    ast_laue_sysabs: AST-translated from laue.py (equal to the tools version, C14); segm_laue / segm_tools: literals of genhkl_base;
    all_settings: the 237 tables; model/Traverse.v: hand model of the traversal, tied by in-Coq evaluation against the implementation. *)
 From Coq Require Import ZArith List Bool String.
-From XV Require Import SGroup HklModel Traverse Tab_segm Ast_laue Tab_sg_all P05 P05_complete P06_fd P06_fd_main.
+From XV Require Import SGroup HklModel Traverse Tab_segm Ast_laue Tab_sg_all P05 P05_complete P06_fd P06_fd_main P05_all P05_nodup.
 Open Scope Z_scope.
 
 (* on the traversal's asymmetric unit (box [-7,7]^3, all 237 settings): sysabs = 0  <->  no operation (R,t) has hR = h with h.t non-integer *)
@@ -76,3 +76,10 @@ Print Assumptions C06_rows_one_per_family.
 Theorem C06_laue_groups_defined : forallb (fun s => match laue_mats s with Some L => negb (Nat.eqb (List.length L) 0) | None => false end) all_settings = true.
 Proof. exact laue_mats_defined. Qed.
 Print Assumptions C06_laue_groups_defined.
+
+Theorem C06_representatives_listed_once : forall s, In s all_settings -> forall L segs rots,
+  all_mats (firstn (Z.to_nat (sg_nuniq s)) (sg_rot s)) = Some rots -> L = (rots ++ map mnegZ rots)%list ->
+  lookup_segm segm_laue (sg_laue s) (sg_choice s) = Some segs ->
+  forall G Tmin Tmax Tterm allowed fuel reps, all_segments G Tmin Tmax Tterm allowed fuel segs = Some reps -> NoDup reps.
+Proof. exact reps_nodup. Qed.
+Print Assumptions C06_representatives_listed_once.
